@@ -426,7 +426,7 @@ def string_scanner(ck, prog):
         return None
     n = 0
     bad = {}
-    for w in _all_strings(["\\", '"', "'", "n", "a", "\n"], 5):
+    for w in _all_strings(["\\", '"', "'", "n", "a", "\n"], 7 if ck.tier == "thorough" else 5):
         p = ref(w)
         if p is None:
             continue
@@ -475,7 +475,7 @@ def comment_scanner(ck, prog):
         return None
     n = 0
     bad = {}
-    for w in _all_strings(["/", "*", "a"], 8):
+    for w in _all_strings(["/", "*", "a"], 11 if ck.tier == "thorough" else 8):
         p = ref(w)
         if p is None or p != len(w):
             continue            # evaluate each terminated comment once, with nothing after it ...
